@@ -105,9 +105,12 @@ def c_factor(I, args, kwargs, f):
         if isinstance(value, (int, float)) and value == 0:
             return DictObj({})
         value = Num(zreal(value), (isinstance(value, float), False))
-    v = zreal(value)
+    v = z3.simplify(zreal(value))
     if I.truth(v == 0, "factor:zero"):
         return DictObj({})
+    mk = ("factor", v.sexpr())
+    if mk in I.ps.memo:  # factor is a pure function: equal arguments give equal tables
+        return I.ps.memo[mk]
     n = I.ps.next_sym = I.ps.next_sym + 1
     member = z3.Function(f"isfactor!{n}", z3.RealSort(), z3.BoolSort())
     I.ps.assume(member(z3.RealVal(1)))
@@ -120,14 +123,18 @@ def c_factor(I, args, kwargs, f):
         return member(kz)
 
     def get(I, k):
-        kz = zreal(k)
-        I.ps.assume(z3.Implies(member(kz), kz != 0))
-        return Num(v / kz, (I.ps.fresh("ff", "Bool"), False))
+        kz = z3.simplify(zreal(k))
+        gk = ("factor.get", n, kz.sexpr())
+        if gk not in I.ps.memo:
+            I.ps.assume(z3.Implies(member(kz), kz != 0))
+            I.ps.memo[gk] = Num(v / kz, (I.ps.fresh("ff", "Bool"), False))
+        return I.ps.memo[gk]
 
     d = SymDict(mem, get, descr=f"factor({v})", known_keys=[z3.RealVal(1)])
     d.value = v
     d.member = member
     d.comprehend = lambda I2, e, g, env: _factor_comprehension(I2, d, e, g, env)
+    I.ps.memo[mk] = d
     return d
 
 
@@ -140,6 +147,10 @@ def _factor_comprehension(I, d, e, g, env):
     # evaluate the filter on a generic element
     if not (isinstance(e.elt, ast.Name) and isinstance(g.target, ast.Name) and e.elt.id == g.target.id):
         raise OutOfSubset("comprehension over factor table with non-identity element")
+    names = sorted({x.id for c in g.ifs for x in ast.walk(c) if isinstance(x, ast.Name) and x.id != g.target.id})
+    ck = ("comp", id(d), tuple(ast.dump(c) for c in g.ifs), tuple(id(env.lookup(x)) for x in names))
+    if ck in I.ps.memo:
+        return I.ps.memo[ck]
     n = I.ps.fresh("ncommon", "Int")
     I.ps.assume(n >= 0)
 
@@ -163,7 +174,8 @@ def _factor_comprehension(I, d, e, g, env):
     w = Num(I.ps.fresh("wcommon", "Real"), (I.ps.fresh("wf", "Bool"), False))
     I.ps.assume(z3.Implies(n > 0, pred(I, w)))
     lst = SymList(n, elem_pred=pred, descr="common factors")
-    return _SymListWrap(lst)
+    I.ps.memo[ck] = _SymListWrap(lst)
+    return I.ps.memo[ck]
 
 
 class _SymListWrap(list):
@@ -303,36 +315,101 @@ class RuleRun:
         if problems:
             return
         # ---- value / equation
+        if not self._wants("value") and not self._wants("vars"):
+            return
         heap.pre_axioms(I)
-        try:
+        if is_eq and post_root.kinds != frozenset(["EqualExpression"]):
+            rep.obligations.append(
+                Obligation("C02", "equation/stays-equation", Verdict("refuted"), f"root became {post_root.clsname}")
+            )
+            return
+
+        def make_goal(seed):
+            memo = dict(seed)
             if is_eq:
-                if post_root.kinds != frozenset(["EqualExpression"]):
-                    rep.obligations.append(
-                        Obligation("C02", "equation/stays-equation", Verdict("refuted"), f"root became {post_root.clsname}")
-                    )
-                    return
                 L0 = heap.complete(I, pre_root, "left")
                 R0 = heap.complete(I, pre_root, "right")
                 l0v, l0d = heap.pre(I, L0)
                 r0v, r0d = heap.pre(I, R0)
-                memo = {}
                 l1v, l1d = heap.post(I, heap.cur_child(I, post_root, "left"), memo)
                 r1v, r1d = heap.post(I, heap.cur_child(I, post_root, "right"), memo)
-                goal = z3.Implies(z3.And(l0d, r0d, l1d, r1d), (l0v == r0v) == (l1v == r1v))
-                prop, clause = "C02", "equation/same-solutions"
-            else:
-                pv, pd = heap.pre(I, pre_root)
-                qv, qd = heap.post(I, post_root)
-                goal = z3.Implies(z3.And(pd, qd), pv == qv)
-                # inside an equation the same obligation carries C02 (rewriting inside one side)
-                prop, clause = "C01", "value/preserved"
-        except StructureError as e:
-            rep.obligations.append(Obligation("C07", "structure/well-formed", Verdict("refuted"), str(e)))
-            return
-        axioms = heap.pre_axioms(I)  # completion may have added ghost operands
-        axioms += pow_instances([goal] + axioms + list(ps.pc))
-        splits = kind_splits(heap, node)
-        v = prove_split(ps.pc, axioms, goal, [(k, cs) for k, cs, _ in splits], timeout_ms=self.timeout_ms)
+                return z3.Implies(z3.And(l0d, r0d, l1d, r1d), (l0v == r0v) == (l1v == r1v))
+            pv, pd = heap.pre(I, pre_root)
+            qv, qd = heap.post(I, post_root, memo)
+            return z3.Implies(z3.And(pd, qd), pv == qv)
+
+        prop, clause = ("C02", "equation/same-solutions") if is_eq else ("C01", "value/preserved")
+        if self._wants("value"):
+            try:
+                self._prove_value(I, ps, heap, node, result, make_goal, prop, clause, rep)
+            except StructureError as e:
+                rep.obligations.append(Obligation("C07", "structure/well-formed", Verdict("refuted"), str(e)))
+                return
+        if self._wants("vars"):
+            vv = z3.Int("v!any")
+            gv = heap.hasvar_pre(I, pre_root, vv) == heap.hasvar_post(I, post_root, vv)
+            v2 = prove(list(ps.pc) + heap.kind_domains(), hasvar_axioms(I, heap, vv), gv, timeout_ms=self.timeout_ms)
+            v2.model = None
+            rep.obligations.append(Obligation("C07", "variables/same-set", v2))
+
+    def _find_cut(self, I, heap, node, result):
+        """Lowest pair (a, b): pre-state subtree a (containing the rewritten node) whose slot in
+        its parent now holds b.  Proving a ~ b first makes the obligation at the root a congruence."""
+        anc = set()
+        o = node
+        while isinstance(o, Obj):
+            anc.add(id(o))
+            o = o.init.get("parent")
+        b = result
+        seen = set()
+        while isinstance(b, Obj) and id(b) not in seen:
+            seen.add(id(b))
+            g = b.cur.get("parent")
+            if not isinstance(g, Obj):
+                return None
+            side = "left" if g.cur.get("left") is b else "right" if g.cur.get("right") is b else None
+            if side is None:
+                return None
+            if g.lazy and g.mirror is None and side in g.init:
+                a = g.init[side]
+                if isinstance(a, Obj) and id(a) in anc:
+                    return a, b
+            b = g
+        return None
+
+    def _prove_value(self, I, ps, heap, node, result, make_goal, prop, clause, rep):
+        pc = list(ps.pc) + heap.kind_domains()
+        cut = self._find_cut(I, heap, node, result)
+        v = None
+        if cut is not None:
+            a, b = cut
+            av, ad = heap.pre(I, a)
+            bv, bd = heap.post(I, b, {})
+            lemma = z3.Implies(z3.And(ad, bd), av == bv)
+            axioms = heap.pre_axioms(I)
+            axioms += pow_instances([lemma] + axioms + list(ps.pc))
+            splits = relevant_splits(kind_splits(heap, node), [lemma] + axioms)
+            v1 = prove_split(pc, axioms, lemma, [(k, cs) for k, cs, _ in splits], timeout_ms=self.timeout_ms)
+            if v1.status == "proved":
+                # the root obligation with the replaced subtree read as its old value (justified by
+                # the lemma wherever both are defined)
+                goal2 = make_goal({id(b): (av, z3.And(bd, ad))})
+                axioms = heap.pre_axioms(I)
+                splits2 = relevant_splits(kind_splits(heap, node), [goal2])
+                v2 = prove_split(pc, axioms, goal2, [(k, cs) for k, cs, _ in splits2], timeout_ms=self.timeout_ms)
+                if v2.status == "proved":
+                    v2.seconds += v1.seconds
+                    v2.backend = "+".join(sorted(set(v1.backend.split("+")) | set(v2.backend.split("+"))))
+                    v2.reason = "cut"
+                    v = v2
+        if v is None:
+            goal = make_goal({})
+            axioms = heap.pre_axioms(I)  # completion may have added ghost operands
+            axioms += pow_instances([goal] + axioms + list(ps.pc))
+            splits = relevant_splits(kind_splits(heap, node), [goal] + axioms)
+            v = prove_split(pc, axioms, goal, [(k, cs) for k, cs, _ in splits], timeout_ms=self.timeout_ms)
+        else:
+            splits = []
         wit = None
         detail = ""
         if v.status != "proved":
@@ -344,14 +421,31 @@ class RuleRun:
                 wit = {"error": repr(e)}
         v.model = None
         rep.obligations.append(Obligation(prop, clause, v, detail=detail, witness=wit))
-        # ---- variables (C07)
-        vv = z3.Int("v!any")
-        gv = heap.hasvar_pre(I, pre_root, vv) == heap.hasvar_post(I, post_root, vv)
-        v2 = prove(ps.pc, hasvar_axioms(I, heap, vv), gv, timeout_ms=self.timeout_ms)
-        v2.model = None
-        rep.obligations.append(Obligation("C07", "variables/same-set", v2))
 
     timeout_ms = 10000
+    want = None
+
+    def _wants(self, what):
+        return self.want is None or what in self.want
+
+
+def relevant_splits(splits, terms):
+    """Keep only the kind variables that occur in the given terms."""
+    ids = set()
+    seen = set()
+
+    def walk(t):
+        if t.get_id() in seen:
+            return
+        seen.add(t.get_id())
+        if z3.is_const(t) and t.decl().kind() == z3.Z3_OP_UNINTERPRETED:
+            ids.add(t.get_id())
+        for c in t.children():
+            walk(c)
+
+    for t in terms:
+        walk(t)
+    return [sp for sp in splits if sp[0].get_id() in ids]
 
 
 def _orig(o):
